@@ -73,10 +73,10 @@ def inst(kind, n, tiers, name=None, asleep=9, via_taskset=0, steal=0, unwind_fn=
 
 INSTANCES = [
     inst('central', 0, ['quick', 'thorough'], fs=None),
-    inst('worker', 1, ['quick', 'thorough'], asleep=1, loops={_LOOP + '.2': 4, _LOOP + '.3': 4}),
-    inst('overflow', 1, ['quick', 'thorough'], asleep=1, loops={_DTOR + '.9': 17}),
+    inst('worker', 1, ['quick', 'thorough'], asleep=1, unwind_fn={_LOOP: 5}),
+    inst('overflow', 1, ['quick', 'thorough'], asleep=1, unwind_fn={_DTOR: 18}),
     inst('ring_dtor', 2, ['quick', 'thorough'], fs=16384),
-    inst('worker', 1, ['thorough'], name='worker_awake_n1', asleep=0, loops={_LOOP + '.2': 4, _LOOP + '.3': 4}),
-    inst('overflow', 1, ['thorough'], name='overflow_awake_n1', asleep=0, loops={_DTOR + '.9': 17}),
+    inst('worker', 1, ['thorough'], name='worker_awake_n1', asleep=0, unwind_fn={_LOOP: 5}),
+    inst('overflow', 1, ['thorough'], name='overflow_awake_n1', asleep=0, unwind_fn={_DTOR: 18}),
     inst('ring_dtor', 2, ['thorough'], name='ring_dtor_steal_n2', steal=1, fs=16384),
 ]
